@@ -8,6 +8,7 @@ from . import rules_wasm as Wm
 from . import rules_purity as P
 from . import rules_term as Tm
 from . import witness, fixture
+from .core import soft_if
 
 try:
     from . import rules_index as X
@@ -60,17 +61,17 @@ def C01(ctx):
     E.c02_r2(ctx, f)
     T.c03_t1(ctx, f)
     T.c03_t2(ctx, f)
-    T.c03_t3(ctx, f)
     T.c09_t1(ctx, f)
     T.c09_t2(ctx, f)
-    x("c02_r3", ctx, f)
-    G.c02_r4(ctx, f)
-    x("c01_r4", ctx, f)
+    d_il = G.c02_r4(ctx, f)
+    x("c02_r3", soft_if(ctx, d_il, "C02.R4"), f)
     G.prepare(ctx, f, {"blank", "format", "masks", "place"})
-    G.c03_r3(ctx, f)
+    d_blank = G.c03_r3(ctx, f)
+    T.c03_t3(soft_if(ctx, d_blank, "C03.R3"), f)
     G.c04_r3(ctx, f)
     G.c08_r4(ctx, f)
-    G.c01_r5(ctx, f)
+    d_place = G.c01_r5(ctx, f)
+    x("c01_r4", soft_if(ctx, d_place, "C01.R5"), f)
     return dict(
         level="other",
         explanation="Round-trip equality over all payloads is not decided as a whole. Decided, for all 3 840 configuration cells at "
@@ -88,8 +89,8 @@ def C02(ctx):
     T.c02_r1(ctx, f, tot)
     T.c07_r1(ctx, f, lay, deg)
     E.c02_r2(ctx, f)
-    x("c02_r3", ctx, f)
-    G.c02_r4(ctx, f)
+    d_il = G.c02_r4(ctx, f)
+    x("c02_r3", soft_if(ctx, d_il, "C02.R4"), f)
     return dict(
         level="other",
         explanation="Exhaustive table obligations: every cell of the block-layout, data-codeword, total-codeword, remainder-bit and "
@@ -104,13 +105,13 @@ def C03(ctx):
     f = ctx.facts("default")
     T.c03_t1(ctx, f)
     T.c03_t2(ctx, f)
-    T.c03_t3(ctx, f)
     R.c08_r1(ctx, f, rid="C03.R1")
     R.c03_r2(ctx, f)
     ct = T.c15_t1(ctx, f)
-    E.c15_r1(ctx, f, ct)
     G.prepare(ctx, f, {"blank", "format"})
-    x("c03_r3", ctx, f)
+    d_blank = G.c03_r3(ctx, f)
+    T.c03_t3(soft_if(ctx, d_blank, "C03.R3"), f)
+    E.c15_r1(soft_if(ctx, d_blank, "C03.R3"), f, ct)
     G.c04_r3(ctx, f, rid="C03.R4", only_outside=True)
     return dict(
         level="other",
@@ -126,10 +127,12 @@ def C04(ctx):
     f = ctx.facts("default")
     T.c04_t1(ctx, f)
     T.c04_t2(ctx, f)
-    T.c03_t3(ctx, f)
     R.c04_r1(ctx, f)
     R.c04_r2(ctx, f)
     R.c05_gate(ctx, f)
+    G.prepare(ctx, f, {"blank", "format"})
+    d_blank = G.c03_r3(ctx, f, rid="C04.R4")  # version blocks: BCH(18,6) word at the ISO positions, exactly V07..V40
+    T.c03_t3(soft_if(ctx, d_blank, "C04.R4"), f)
     x("c04_r3", ctx, f)
     witness.rule(ctx, "C04.W1", "reported parameters are public fields of the documented types", ["w_c04_reported_fields"])
     return dict(
@@ -185,8 +188,8 @@ def C07(ctx):
     T.c07_r1(ctx, f, lay, deg)
     x("c07_r2", ctx, f)
     E.c02_r2(ctx, f)
-    x("c02_r3", ctx, f)
-    G.c02_r4(ctx, f)
+    d_il = G.c02_r4(ctx, f)
+    x("c02_r3", soft_if(ctx, d_il, "C02.R4"), f)
     return dict(
         level="other",
         explanation="510 reachable GF(256)/0x11D table cells, 13 generator polynomials recomputed from the definition, the 160-cell "
@@ -199,11 +202,12 @@ def C07(ctx):
 def C08(ctx):
     f = ctx.facts("default")
     R.c08_r1(ctx, f)
-    tbl = T.c08_dispatch(ctx, f)
-    T.c08_t1(ctx, f, tbl)
     R.c04_r1(ctx, f)
     G.prepare(ctx, f, {"blank", "format", "masks"})
-    x("c08_r4", ctx, f, tbl)
+    d_masks = G.c08_r4(ctx, f)
+    sctx = soft_if(ctx, d_masks, "C08.R4")
+    tbl = T.c08_dispatch(sctx, f)
+    T.c08_t1(sctx, f, tbl)
     G.c04_r3(ctx, f, rid="C08.R5", only_outside=True)
     return dict(
         level="other",
@@ -341,11 +345,11 @@ def C15(ctx):
     lay, dcw, deg, tot = tables_core(ctx, f)
     T.c15_t2(ctx, f, tot)
     T.c03_t2(ctx, f)
-    T.c03_t3(ctx, f)
-    E.c15_r1(ctx, f, ct)
     R.c08_r1(ctx, f, rid="C15.R2")
     G.prepare(ctx, f, {"blank", "format", "place"})
-    G.c03_r3(ctx, f, rid="C15.R3")
+    d_blank = G.c03_r3(ctx, f, rid="C15.R3")
+    T.c03_t3(soft_if(ctx, d_blank, "C15.R3"), f)
+    E.c15_r1(soft_if(ctx, d_blank, "C15.R3"), f, ct)
     G.c04_r3(ctx, f, rid="C15.R4", only_outside=True)
     G.c01_r5(ctx, f, rid="C15.R5")
     S.c12_r2(ctx, ctx.facts("svg"))
@@ -362,10 +366,11 @@ def C15(ctx):
 
 def C16(ctx):
     f = ctx.facts("default")
-    t = Tm.c16_t1(ctx, f)
-    Tm.c16_r(ctx, f, t)
+    d_term = G.c16_r3(ctx, f)
+    sctx = soft_if(ctx, d_term, "C16.R3")
+    t = Tm.c16_t1(sctx, f)
+    Tm.c16_r(sctx, f, t)
     Tm.c16_entry(ctx, f)
-    G.c16_r3(ctx, f)
     return dict(
         level="other",
         explanation="The (top, bottom) -> glyph decision table is extracted from print_line's MIR and is the documented bijection; "
